@@ -65,7 +65,24 @@ class World:
         with self.loop.enter():
             self.site = rd.StandaloneResourceDirectory(context=None, log=log)
         self.crd = self.site.common_rd
+        # SimpleRegistration (.well-known/rd) fetches the registrant's /.well-known/core through context.request(); a stub context
+        # answers that fetch with the link-format text of the current operation
+        self.fetch_payload = b""
+        class _Fetch:
+            def __init__(s, msg):
+                async def answer():
+                    return aiocoap.Message(code=aiocoap.CONTENT, payload=world.fetch_payload, content_format=40)
+                s.response_raising = answer()
+        class _StubContext:
+            def request(s, msg): return _Fetch(msg)
+        from aiocoap.cli.rd import SimpleRegistration
+        for res in self.site._resources.values():
+            if isinstance(res, SimpleRegistration): res.context = _StubContext()
         self.task_exceptions = 0
+        # a third change callback next to the two lookup resources' updated_state: counts what their observers are told
+        self.notified = 0; self.notified_seen = 0
+        def _cb(): world.notified += 1
+        self.crd.register_change_callback(_cb)
 
     def close(self):
         self._rd.asyncio = self._saved_asyncio
@@ -112,6 +129,9 @@ class World:
 
     def do(self, o):
         a = self.aiocoap; k = o["op"]
+        if k == "register" and o.get("simple"):
+            self.fetch_payload = self.payload_of(o)
+            return self.request(a.POST, [".well-known", "rd"], o["q"], b"", None, None, o.get("remote"))
         if k == "register": return self.request(a.POST, ["resourcedirectory", ""], o["q"], self.payload_of(o), o.get("cf"), None, o.get("remote"))
         if k == "post": return self.request(a.POST, ["reg"] + o["path"], o["q"], self.payload_of(o), o.get("cf"), None, o.get("remote"))
         if k == "put": return self.request(a.PUT, ["reg"] + o["path"], o["q"], self.payload_of(o), o.get("cf"), None, o.get("remote"))
@@ -138,7 +158,8 @@ class World:
                 t._c20_seen = True
                 if t.exception() is not None: self.task_exceptions += 1
         self.tasks = [t for t in self.tasks if not t.done()]
-        return {"r": resp,
+        nt = self.notified - self.notified_seen; self.notified_seen = self.notified
+        return {"r": resp, "nt": nt,
                 "ep": self.request(self.aiocoap.GET, ["endpoint-lookup", ""]),
                 "res": self.request(self.aiocoap.GET, ["resource-lookup", ""]),
                 "bk": [[k[0], k[1], pidx(reg.path), reg.lt] for k, reg in crd._by_key.items()],
@@ -326,6 +347,22 @@ def check_history(inp, res):
                 loc = canonical_loc(o["path"])
                 if loc is not None and sh.by_loc(loc) is not None:
                     hard.append(("C20:live-registration-not-found", "%s: location %d is live but answered 4.04" % (where, loc)))
+        elif k == "register" and o.get("simple"):
+            kv = dict(split_q(o["q"])); key = (kv.get("ep"), kv.get("d"))
+            loc = next((p_ for e_, d_, p_, _ in ob["bk"] if (e_, d_) == key), None)
+            if r != "Changed": hard.append(("C20:unexpected-answer", "%s (simple registration) answered %s" % (where, r)))
+            elif "base" in kv: hard.append(("C20:simple-registration-with-base-accepted", where))
+            else:
+                if key in sh.reg:
+                    if loc is not None and sh.reg[key]["loc"] != loc: hard.append(("C20:rereg-location-changed", "%s: %r was at %d, simple re-registration put it at %d" % (where, key, sh.reg[key]["loc"], loc)))
+                    del sh.reg[key]
+                elif loc is not None and sh.by_loc(loc) is not None:
+                    hard.append(("C20:location-shared", "%s: new registration %r got location %d of live %r" % (where, key, loc, sh.by_loc(loc))))
+                if o.get("remote") is None: hard.append(("C20:anonymous-without-base", "%s succeeded" % where))
+                e = {"loc": loc if loc is not None else -1, "lt": 90000, "base": None, "explicit": False, "params": {}, "links": o["links"], "expires": 0}
+                try: sh.apply_params(e, o, True); sh.reg[key] = e
+                except Exception as x: hard.append(("C20:accepted-invalid-parameters", "%s accepted %s (%s)" % (where, fw.jdump(o["q"]), x)))
+                if loc is None and e["expires"] > sh.now: hard.append(("C20:lookup-misses-live", "%s: simple registration of %r answered 2.04 but it is not in the index" % (where, key)))
         elif k == "register":
             if not r.startswith("Created:") or not r[8:].isdigit(): hard.append(("C20:bad-location", "%s answered %s" % (where, r)))
             else:
@@ -384,13 +421,25 @@ def check_history(inp, res):
                         seq = [it for it in universe if it[0] in exp]
                     else:
                         want = canon_links(exp); seq = [it for it in universe if fw.jdump([it[0], sorted(it[1], key=fw.jdump)]) in want]
-                    if page is not None: seq = seq[page * count:]
-                    if count is not None: seq = seq[:count]
-                    if got != seq:
+                    mismatch = None
+                    if k == "res" and len(set(canon_links(universe))) != len(universe):
+                        # two registrations carry a textually identical link: its position in the unfiltered listing does not say whose it
+                        # is; compare as multisets, and only when no pagination cuts the list
+                        if page is None and count is None and canon_links(got) != canon_links(exp): mismatch = exp
+                    else:
+                        if page is not None: seq = seq[page * count:]
+                        if count is not None: seq = seq[:count]
+                        if got != seq: mismatch = seq
+                    if mismatch is not None:
+                        seq = mismatch
                         soft.append(("C20:lookup-filter-semantics:" + ("multi" if len(crits) + (1 if pages or counts else 0) > 1 else "single"),
                                      "%s %s lists %s, RFC 9176 semantics give %s" % (where, fw.jdump(o["q"]), fw.jdump(got)[:300], fw.jdump(seq)[:300])))
         sh.expire()
         # ---- after every step: the directory as observed must be exactly the shadow
+        if (ob["ep"] != prev["ep"] or ob["res"] != prev["res"]) and ob.get("nt", 1) == 0:
+            soft.append(("C20:lookup-observers-not-notified:" + (k + "-links" if k == "put" else k),
+                         "%s changed what the lookups show (%s -> %s / %s -> %s) but no change callback ran: observers of the lookup resources keep the old representation" % (
+                             where, prev["ep"][:120], ob["ep"][:120], prev["res"][:120], ob["res"][:120])))
         if ob["exc"] != 0: hard.append(("C20:loop-exception", "%s: an exception was raised inside a lifetime task" % where))
         bk = [(e_, d_, p_) for e_, d_, p_, _ in ob["bk"]]; bp = [(e_, d_, p_) for p_, e_, d_ in ob["bp"]]
         if sorted(bk, key=fw.jdump) != sorted(bp, key=fw.jdump) or len(set((e_, d_) for e_, d_, _ in bk)) != len(bk) or len(set(p_ for _, _, p_ in bk)) != len(bk):
@@ -590,6 +639,8 @@ def gen_history(rng, k):
             if not short: q = [x for x in q if not (x.startswith("lt=") and x[3:] in ("-15", "-16", "-20", "0", "1"))]
             cf = 40 if rng.random() < 0.94 else rng.choice([None, 0, 50])
             o = {"op": "register", "remote": rng.choice(REMOTES), "q": q, "cf": cf, "links": gen_links(rng)}
+            if rng.random() < 0.2:
+                o["simple"] = True; o["cf"] = 40; o["q"] = [x for x in q if not x.startswith("base")]
             g.register(o); ops.append(o)
         elif r < 0.43:
             q = gen_params(rng, False)
@@ -648,7 +699,7 @@ class C20(fw.Property):
                   "between model and abstract directory; the refinement is about heap, indexes, timers, locations, atomicity and what lookups show. Not modelled: "
                   "SimpleRegistration (.well-known/rd, needs an outgoing request), the proxy extension (proxy_domain is None: every proxy=... is 4.00), observation "
                   "notifications of the lookup resources, key case-insensitivity of Link.__contains__, Unicode digits/whitespace in int(), urljoin outside the grammar "
-                  "stated in Model/C20Str.v, valueless anchor attributes. Six defects found by this check were fixed in /repo (f8ef49b, 5a5d1e7, 212d645); no open finding.")
+                  "stated in Model/C20Str.v, valueless anchor attributes. Six defects found by this check were fixed in /repo (f8ef49b, 5a5d1e7, 212d645); one open finding (a PUT that replaces only the links does not notify the observers of the lookup resources).")
     rule = ("stream helpers (1 in 8) = the model's urljoin / int() / str.split() / query splitting against CPython's on scheme x authority x path x reference tables and "
             "random digit strings. stream history = 3..26 steps: register (28 %: names a/b/node1/'' x sectors -/x/y, 70 % clean parameters, else 1-2 injected faults among invalid/valueless/"
             "duplicate lt, valueless/duplicate base, ep missing/duplicate/valueless, d duplicate/valueless, forbidden keys rt/href/page/count/anchor/proxy; content-format "
@@ -661,7 +712,9 @@ class C20(fw.Property):
     trusted_base = ["hand-written Model/C20.v + Model/C20Str.v (validated by the history stream on every run: answers, lookup payload text, indexes, lifetimes, timers)",
                     "harness/simloop.py virtual-time loop (ideal timers, FIFO ready queue); rd.py's module global asyncio is wrapped to record its lifetime tasks",
                     "the plugin's own link-format serialiser/parser and urllib.parse.urljoin (used by the oracle)"]
-    assumptions = ["proxy_domain is None (no proxy extension)", "requests reach the resources through Site.render after a real encode/decode round trip; transport, blockwise and observe are not involved",
+    assumptions = ["proxy_domain is None (no proxy extension: every proxy=... is 4.00; proxy_active / setproxyremote never run) - the statement in properties.jsonl does not carry this restriction",
+                   "SimpleRegistration (.well-known/rd) is driven with a stub context whose fetch of the registrant's /.well-known/core succeeds at once: it is compared with Register carrying the fetched links (answer 2.04 instead of 2.01 + Location); failing / slow fetches and the .well-known/core POST variant are not driven",
+                   "request bodies fit one block: Block1 assembly in front of the resources (property C06) is not part of the histories", "requests reach the resources through Site.render after a real encode/decode round trip; transport, blockwise and observe are not involved",
                    "parameter/attribute names are lower-case ASCII, values printable ASCII without double quotes"]
 
     def gen_cases(self, tier, rng, n):
@@ -706,7 +759,8 @@ class C20(fw.Property):
         if stream == "helpers":
             return "(map (fun p => urljoin (fst p) (snd p)) %s, map parse_int %s, map split_ws %s, map split_eq %s)" % (
                 glist(["(%s, %s)" % (gstr(b), gstr(r)) for b, r in inp["urljoin"]]), g_strs(inp["int"]), g_strs(inp["split"]), g_strs(inp["eq"]))
-        return "run empty_rd %s" % glist([g_op(o) for o in inp["ops"]])
+        ops = glist([g_op(o) for o in inp["ops"]])
+        return "let ops := %s in (run empty_rd ops, run_notified empty_rd ops)" % ops
 
     def decode(self, stream, inp, p):
         p = fw.plain(p)
@@ -714,8 +768,11 @@ class C20(fw.Property):
             u, i, sp, eq = p
             return {"urljoin": u, "int": [d_ostr(x) for x in i], "split": sp, "eq": [[k, d_ostr(v)] for k, v in eq]}
         out = []
-        for ob in p:
-            out.append({"r": d_resp(ob["o_resp"]), "ep": d_resp(ob["o_ep"]), "res": d_resp(ob["o_res"]),
+        obs, nts = p
+        for ob, nt, o in zip(obs, nts, inp["ops"]):
+            rr = d_resp(ob["o_resp"])
+            if o.get("simple") and rr.startswith("Created:"): rr = "Changed"
+            out.append({"r": rr, "nt": nt, "ep": d_resp(ob["o_ep"]), "res": d_resp(ob["o_res"]),
                         "bk": [[e, d_ostr(d), i, lt] for (e, d, i, lt) in ob["o_by_key"]],
                         "bp": [[i, e, d_ostr(d)] for (i, e, d) in ob["o_by_path"]],
                         "tm": ob["o_timers"], "now": ob["o_now"], "exc": ob["o_exc"]})
